@@ -27,6 +27,7 @@ class Verifier:
         self.load_contracts(contracts_dir)
         self.timeout = timeout
         self.need = need
+        self.tier = "thorough" if need > 1 else "quick"
         self.jobs = jobs
         self.lib_used = set()
         self.math_used = set()
@@ -188,8 +189,12 @@ class Verifier:
         if c.mode not in ("lia", "bv", "ring", "group"):
             rec["error"] = "mode %s not implemented" % c.mode
             return rec
+        qp = c.opts.get("quickparts")
         for part, pname in self.partitions(f, c):
             if only_partition and pname != only_partition:
+                continue
+            if qp and self.tier == "quick" and pname not in str(qp).split(","):
+                rec.setdefault("partitions_skipped_in_quick", []).append(pname)
                 continue
             run = FuncRun(self, f, c, part, pname)
             run.asm_body = asm_body
@@ -297,7 +302,7 @@ class Verifier:
                     text = dom.emit(ob.decl, ob.bounds, list(ob.hyps), ob.goal)
                 ob.smt_size = len(text)
                 ob.smt_hash = hashlib.sha256(text.encode()).hexdigest()[:16]
-                r = smt.run_portfolio(text, timeout=self.timeout, need=self.need)
+                r = smt.run_portfolio(text, timeout=self.timeout, need=self.need, fast=(ob.mode == "group"))
                 if r.status != "unsat" and r.status != "sat":
                     # retry without slicing (rarely needed) -- slicing is only an optimisation
                     pass
